@@ -195,8 +195,8 @@ Proof. intros. unfold flagged. destruct (starts_star (wv w)); reflexivity. Qed.
 
 Lemma normal_step : forall sg ign w r fl,
   normal_loop sg ign (w :: r) fl =
-    if flagged sg w && negb (fhas (key w) fl) then
-      (if ign then normal_loop sg ign r fl else LBad (unstar (wv w)) (wline w))
+    if negb (fhas (key w) fl) then
+      (if flagged sg w && negb ign then LBad (unstar (wv w)) (wline w) else normal_loop sg ign r fl)
     else normal_loop sg ign r (fset (key w) (flagged sg w) fl).
 Proof. intros. cbn [normal_loop]. rewrite flag_is_flagged. reflexivity. Qed.
 
@@ -206,26 +206,27 @@ Lemma normal_app : forall sg ign pre post fl,
 Proof.
   intros sg ign. induction pre as [|w pre IH]; intros post fl; [reflexivity|].
   rewrite <- app_comm_cons. rewrite !normal_step.
-  destruct (flagged sg w && negb (fhas (key w) fl)); [destruct ign; [apply IH | reflexivity] | apply IH].
+  destruct (negb (fhas (key w) fl)); [destruct (flagged sg w && negb ign); [reflexivity | apply IH] | apply IH].
 Qed.
 
-(* key set after the loop: only un-flagged words add keys *)
+(* assigning to a key that is present does not change the key set *)
+Lemma fhas_fset_present : forall fl k0 v k, fhas k0 fl = true -> fhas k (fset k0 v fl) = fhas k fl.
+Proof.
+  intros fl k0 v k H. rewrite fhas_fset. eqs_case k0 k; [subst k; rewrite H; reflexivity | reflexivity].
+Qed.
+
+(* the key set is the master's throughout *)
 Lemma normal_keys : forall sg ign ws fl fl',
-  normal_loop sg ign ws fl = LOk fl' ->
-  forall k, fhas k fl' = fhas k fl || existsb (fun w => negb (flagged sg w) && eqs (key w) k) ws.
+  normal_loop sg ign ws fl = LOk fl' -> forall k, fhas k fl' = fhas k fl.
 Proof.
   intros sg ign. induction ws as [|w ws IH]; intros fl fl' H k.
-  - cbn in H. inversion H; subst. cbn. rewrite orb_false_r. reflexivity.
-  - rewrite normal_step in H. cbn [existsb].
-    destruct (flagged sg w) eqn:F; cbn [andb negb] in *.
-    + destruct (fhas (key w) fl) eqn:Hk; cbn [negb] in H.
-      * rewrite (IH _ _ H k). rewrite fhas_fset.
-        eqs_case (key w) k; [subst k; rewrite Hk; reflexivity | reflexivity].
-      * destruct ign; [apply (IH _ _ H k) | discriminate].
-    + rewrite (IH _ _ H k). rewrite fhas_fset. rewrite orb_assoc. rewrite (orb_comm (eqs (key w) k)). reflexivity.
+  - cbn in H. inversion H; subst. reflexivity.
+  - rewrite normal_step in H. destruct (fhas (key w) fl) eqn:Hk; cbn [negb] in H.
+    + rewrite (IH _ _ H k). apply fhas_fset_present. exact Hk.
+    + destruct (flagged sg w && negb ign); [discriminate | apply (IH _ _ H k)].
 Qed.
 
-(* value of a key that was present from the start: the last word naming it decides *)
+(* value of a key: the last word naming it decides *)
 Lemma normal_get : forall sg ign ws fl fl' k,
   fhas k fl = true -> normal_loop sg ign ws fl = LOk fl' ->
   fget k fl' = match last_match k ws with Some w => Some (flagged sg w) | None => fget k fl end.
@@ -233,98 +234,77 @@ Proof.
   intros sg ign. induction ws as [|w ws IH]; intros fl fl' k Hk H.
   - cbn in H. inversion H; subst. reflexivity.
   - rewrite normal_step in H. cbn [last_match].
-    destruct (flagged sg w && negb (fhas (key w) fl)) eqn:C.
-    + (* skipped or error: then key w <> k *)
-      apply andb_true_iff in C. destruct C as [_ C]. apply negb_true_iff in C.
-      assert (N : eqs (key w) k = false).
-      { apply eqs_false_iff. intro E. rewrite E in C. congruence. }
-      rewrite N. destruct ign; [|discriminate].
-      rewrite (IH _ _ k Hk H). destruct (last_match k ws); reflexivity.
+    destruct (fhas (key w) fl) eqn:C; cbn [negb] in H.
     + assert (Hk' : fhas k (fset (key w) (flagged sg w) fl) = true)
-        by (rewrite fhas_fset, Hk; apply orb_true_r).
+        by (rewrite fhas_fset_present; assumption).
       rewrite (IH _ _ k Hk' H). destruct (last_match k ws); [reflexivity|].
       rewrite fget_fset. destruct (eqs (key w) k); reflexivity.
+    + assert (N : eqs (key w) k = false).
+      { apply eqs_false_iff. intro E. rewrite E in C. congruence. }
+      rewrite N. destruct (flagged sg w && negb ign); [discriminate|].
+      rewrite (IH _ _ k Hk H). destruct (last_match k ws); reflexivity.
 Qed.
 
-(* no error while every flagged word names a key already present *)
+(* no error while every flagged word names a key *)
 Lemma normal_pre_ok : forall sg ign ws fl,
   (forall p, In p ws -> flagged sg p = true -> fhas (key p) fl = true) ->
   exists fl', normal_loop sg ign ws fl = LOk fl'.
 Proof.
   intros sg ign. induction ws as [|w ws IH]; intros fl H.
   - exists fl. reflexivity.
-  - rewrite normal_step.
-    destruct (flagged sg w) eqn:F; cbn [andb].
-    + rewrite (H w (or_introl eq_refl) F). cbn [negb].
-      apply IH. intros p Hp Fp. rewrite fhas_fset. rewrite (H p (or_intror Hp) Fp). apply orb_true_r.
-    + apply IH. intros p Hp Fp. rewrite fhas_fset. rewrite (H p (or_intror Hp) Fp). apply orb_true_r.
+  - rewrite normal_step. destruct (fhas (key w) fl) eqn:Hk; cbn [negb].
+    + apply IH. intros p Hp Fp. rewrite fhas_fset_present by exact Hk. apply H; [right; exact Hp | exact Fp].
+    + destruct (flagged sg w) eqn:F.
+      * rewrite (H w (or_introl eq_refl) F) in Hk. discriminate.
+      * cbn [andb]. apply IH. intros p Hp Fp. apply H; [right; exact Hp | exact Fp].
 Qed.
 
-(* an error comes from a flagged word whose key was absent from the start *)
+(* an error comes from a flagged word whose key is not a key of the table *)
 Lemma normal_bad_sound : forall sg ign ws fl v l,
   normal_loop sg ign ws fl = LBad v l ->
   ign = false /\ exists pre w post, ws = pre ++ w :: post /\ v = unstar (wv w) /\ l = wline w
-                  /\ flagged sg w = true /\ fhas (key w) fl = false.
+                  /\ flagged sg w = true /\ fhas (key w) fl = false
+                  /\ (forall p, In p pre -> flagged sg p = true -> fhas (key p) fl = true).
 Proof.
   intros sg ign. induction ws as [|w ws IH]; intros fl v l H.
   - cbn in H. discriminate.
-  - rewrite normal_step in H.
-    destruct (flagged sg w && negb (fhas (key w) fl)) eqn:C.
-    + apply andb_true_iff in C. destruct C as [C1 C2]. apply negb_true_iff in C2. destruct ign.
-      * destruct (IH _ _ _ H) as [E _]. discriminate.
-      * inversion H; subst. split; [reflexivity|]. exists [], w, ws. repeat split; assumption.
-    + destruct (IH _ _ _ H) as [E [pre [w' [post [H1 [H2 [H3 [H4 H5]]]]]]]].
-      split; [exact E|]. exists (w :: pre), w', post. subst ws. repeat split; try assumption.
-      rewrite fhas_fset in H5. apply orb_false_iff in H5. apply H5.
+  - rewrite normal_step in H. destruct (fhas (key w) fl) eqn:Hk; cbn [negb] in H.
+    + destruct (IH _ _ _ H) as [E [pre [w' [post [H1 [H2 [H3 [H4 [H5 H6]]]]]]]]].
+      split; [exact E|]. exists (w :: pre), w', post. subst ws.
+      rewrite fhas_fset_present in H5 by exact Hk. repeat split; try assumption.
+      intros p [Hp|Hp] Fp; [subst p; exact Hk|].
+      rewrite <- (fhas_fset_present fl (key w) (flagged sg w) (key p) Hk). apply H6; assumption.
+    + destruct (flagged sg w && negb ign) eqn:C.
+      * apply andb_true_iff in C. destruct C as [C1 C2]. apply negb_true_iff in C2.
+        inversion H; subst. split; [reflexivity|]. exists [], w, ws. repeat split; try assumption.
+        intros p [].
+      * destruct (IH _ _ _ H) as [E [pre [w' [post [H1 [H2 [H3 [H4 [H5 H6]]]]]]]]].
+        split; [exact E|]. exists (w :: pre), w', post. subst ws. repeat split; try assumption.
+        intros p [Hp|Hp] Fp; [|apply H6; assumption].
+        subst p. rewrite Fp, E in C. discriminate.
 Qed.
 
 Lemma normal_ignore_never_bad : forall sg ws fl v l, normal_loop sg true ws fl <> LBad v l.
 Proof. intros sg ws fl v l H. apply normal_bad_sound in H. destruct H as [H _]. discriminate. Qed.
 
-(* two flag tables that agree everywhere except on ku stay so, and raise the same error,
-   as long as no flagged word names ku *)
-Lemma normal_agree : forall sg ign ku ws fl1 fl2,
-  (forall k, k <> ku -> fget k fl1 = fget k fl2) ->
-  (forall p, In p ws -> flagged sg p = true -> key p <> ku) ->
-  match normal_loop sg ign ws fl1, normal_loop sg ign ws fl2 with
-  | LOk a, LOk b => forall k, k <> ku -> fget k a = fget k b
-  | LBad v l, LBad v' l' => v = v' /\ l = l'
-  | _, _ => False
-  end.
-Proof.
-  intros sg ign ku. induction ws as [|w ws IH]; intros fl1 fl2 A N.
-  - cbn. exact A.
-  - rewrite !normal_step.
-    assert (N' : forall p, In p ws -> flagged sg p = true -> key p <> ku)
-      by (intros p Hp; apply N; right; exact Hp).
-    assert (S : forall b k, k <> ku -> fget k (fset (key w) b fl1) = fget k (fset (key w) b fl2))
-      by (intros b k Hk; rewrite !fget_fset; destruct (eqs (key w) k); [reflexivity | apply A; exact Hk]).
-    destruct (flagged sg w) eqn:F; cbn [andb].
-    + assert (Hw : key w <> ku) by (apply N; [left; reflexivity | exact F]).
-      unfold fhas. rewrite (A _ Hw). destruct (fget (key w) fl2); cbn [negb].
-      * apply IH; [apply S | exact N'].
-      * destruct ign; [apply IH; assumption | split; reflexivity].
-    + apply IH; [apply S | exact N'].
-Qed.
-
 (* ---------- the "+" loop, as a loop over the pieces *)
 Fixpoint pieces_loop (ps:list (str * nat)) (fl:flags) : lres :=
   match ps with
   | [] => LOk fl
-  | (v, l) :: r => if negb (fhas v fl) then LBad v l else pieces_loop r (fset (lowers v) true fl)
+  | (v, l) :: r => if negb (fhas (lowers v) fl) then LBad v l else pieces_loop r (fset (lowers v) true fl)
   end.
 Lemma pieces_app : forall a b fl,
   pieces_loop (a ++ b) fl = match pieces_loop a fl with LOk fl' => pieces_loop b fl' | bad => bad end.
 Proof.
   induction a as [|[v l] a IH]; intros b fl; [reflexivity|].
-  cbn. destruct (fhas v fl); cbn; [apply IH | reflexivity].
+  cbn. destruct (fhas (lowers v) fl); cbn; [apply IH | reflexivity].
 Qed.
 Lemma plus_values_pieces : forall vals line fl,
   plus_values vals line fl = pieces_loop (map (fun v => (v, line)) (filter nonempty vals)) fl.
 Proof.
   induction vals as [|v r IH]; intros line fl; cbn; [reflexivity|].
   unfold nonempty at 1. destruct (null v); cbn; [apply IH|].
-  destruct (fhas v fl); cbn; [apply IH | reflexivity].
+  destruct (fhas (lowers v) fl); cbn; [apply IH | reflexivity].
 Qed.
 Lemma plus_loop_pieces : forall ws fl, plus_loop ws fl = pieces_loop (plus_pieces ws) fl.
 Proof.
@@ -339,61 +319,35 @@ Lemma pieces_get : forall ps fl fl' k,
 Proof.
   induction ps as [|[v l] ps IH]; intros fl fl' k H.
   - cbn in H. inversion H; subst. reflexivity.
-  - cbn [pieces_loop] in H. destruct (fhas v fl); cbn [negb] in H; [|discriminate].
+  - cbn [pieces_loop] in H. destruct (fhas (lowers v) fl); cbn [negb] in H; [|discriminate].
     rewrite (IH _ _ k H). cbn [map fst]. rewrite mems_cons. rewrite fget_fset. rewrite (eqs_sym k).
     destruct (mems k (map lowers (map fst ps))); [rewrite orb_true_r|rewrite orb_false_r]; reflexivity.
 Qed.
 
-(* with lower-cased keys only, the key set never changes: the first piece that is not literally a key fails *)
-Definition lowkeys (fl:flags) : Prop := forall k, fhas k fl = true -> lowers k = k.
+(* the first piece whose lower-cased name is not a key fails *)
 Lemma pieces_first_bad : forall pre v l post fl,
-  lowkeys fl ->
-  (forall p, In p pre -> fhas (fst p) fl = true) -> fhas v fl = false ->
+  (forall p, In p pre -> fhas (lowers (fst p)) fl = true) -> fhas (lowers v) fl = false ->
   pieces_loop (pre ++ (v, l) :: post) fl = LBad v l.
 Proof.
-  induction pre as [|[p lp] pre IH]; intros v l post fl L Hpre Hv.
-  - cbn. rewrite Hv. reflexivity.
-  - cbn. pose proof (Hpre (p, lp) (or_introl eq_refl)) as Hp. cbn in Hp. rewrite Hp. cbn.
-    rewrite (L p Hp).
-    assert (Same : forall k, fhas k (fset p true fl) = fhas k fl).
-    { intro k. rewrite fhas_fset. eqs_case p k; [subst k; rewrite Hp; reflexivity | reflexivity]. }
+  induction pre as [|[p lp] pre IH]; intros v l post fl Hpre Hv.
+  - cbn [app pieces_loop]. rewrite Hv. reflexivity.
+  - cbn [app pieces_loop]. pose proof (Hpre (p, lp) (or_introl eq_refl)) as Hp. cbn [fst] in Hp.
+    rewrite Hp. cbn [negb].
     apply IH.
-    + intros k Hk. rewrite Same in Hk. apply L. exact Hk.
-    + intros q Hq. rewrite Same. apply Hpre. right. exact Hq.
-    + rewrite Same. exact Hv.
-Qed.
-Lemma pieces_all_ok : forall ps fl,
-  lowkeys fl -> (forall p, In p ps -> fhas (fst p) fl = true) -> exists fl', pieces_loop ps fl = LOk fl'.
-Proof.
-  induction ps as [|[p lp] ps IH]; intros fl L H.
-  - exists fl. reflexivity.
-  - cbn. pose proof (H (p, lp) (or_introl eq_refl)) as Hp. cbn in Hp. rewrite Hp. cbn.
-    rewrite (L p Hp).
-    assert (Same : forall k, fhas k (fset p true fl) = fhas k fl).
-    { intro k. rewrite fhas_fset. eqs_case p k; [subst k; rewrite Hp; reflexivity | reflexivity]. }
-    apply IH.
-    + intros k Hk. rewrite Same in Hk. apply L. exact Hk.
-    + intros q Hq. rewrite Same. apply H. right. exact Hq.
+    + intros q Hq. rewrite fhas_fset_present by exact Hp. apply Hpre. right. exact Hq.
+    + rewrite fhas_fset_present by exact Hp. exact Hv.
 Qed.
 Lemma pieces_bad_sound : forall ps fl v l,
-  lowkeys fl -> pieces_loop ps fl = LBad v l ->
-  exists pre post, ps = pre ++ (v, l) :: post /\ fhas v fl = false
-                   /\ (forall p, In p pre -> fhas (fst p) fl = true).
+  pieces_loop ps fl = LBad v l ->
+  exists pre post, ps = pre ++ (v, l) :: post /\ fhas (lowers v) fl = false
+                   /\ (forall p, In p pre -> fhas (lowers (fst p)) fl = true).
 Proof.
-  induction ps as [|[p lp] ps IH]; intros fl v l L H; cbn in H; [discriminate|].
-  destruct (fhas p fl) eqn:Hp; cbn in H.
-  - rewrite (L p Hp) in H.
-    assert (Same : forall k, fhas k (fset p true fl) = fhas k fl).
-    { intro k. rewrite fhas_fset. eqs_case p k; [subst k; rewrite Hp; reflexivity | reflexivity]. }
-    assert (L' : lowkeys (fset p true fl)) by (intros k Hk; rewrite Same in Hk; apply L; exact Hk).
-    destruct (IH _ _ _ L' H) as [pre [post [H1 [H2 H3]]]].
-    exists ((p, lp) :: pre), post. subst ps. split; [reflexivity|]. split; [rewrite <- Same; exact H2|].
-    intros q [Hq|Hq]; [subst q; exact Hp | rewrite <- Same; apply H3; exact Hq].
+  induction ps as [|[p lp] ps IH]; intros fl v l H; cbn [pieces_loop] in H; [discriminate|].
+  destruct (fhas (lowers p) fl) eqn:Hp; cbn [negb] in H.
+  - destruct (IH _ _ _ H) as [pre [post [H1 [H2 H3]]]].
+    exists ((p, lp) :: pre), post. subst ps. split; [reflexivity|].
+    rewrite fhas_fset_present in H2 by exact Hp. split; [exact H2|].
+    intros q [Hq|Hq]; [subst q; exact Hp|].
+    rewrite <- (fhas_fset_present fl (lowers p) true _ Hp). apply H3. exact Hq.
   - inversion H; subst. exists [], ps. split; [reflexivity|]. split; [exact Hp|]. intros q [].
-Qed.
-
-Lemma lowkeys_init : forall m, lowkeys (init_flags m []).
-Proof.
-  intros m k H. rewrite fhas_init in H. apply mems_In in H. unfold keys in H. apply in_map_iff in H.
-  destruct H as [w [H _]]. subst k. apply key_lowered.
 Qed.
